@@ -32,6 +32,7 @@ class QWorld(World):
         super().__init__(*a, **kw)
         self.log = []
         self.next_in = None
+        self.emitted_owner = {}     # id(hook command) -> owner label when the layer yielded it
 
     def side(self, conn):
         return "c" if conn is self.ctx.client else "s"
@@ -78,6 +79,7 @@ class QWorld(World):
             for c in self.layer.handle_event(event):
                 r = self.render(c)
                 if r is not None: ent["out"].append(r)
+                if isinstance(c, LAYER_HOOKS): self.emitted_owner[id(c)] = self.owner(c.flow)
                 self._command(c)
         except AssertionError as e:
             self.errors.append(("AssertionError", str(e)))
@@ -112,11 +114,14 @@ class Sim:
     def do_hook(self, k, edit):
         w = self.w
         if not w.deferred_hooks: return
-        h = w.deferred_hooks[k % len(w.deferred_hooks)]
+        idx = k % len(w.deferred_hooks)
+        h = w.deferred_hooks[idx]
         rep = "none"
         if isinstance(h, (ltcp.TcpMessageHook, ludp.UdpMessageHook)) and edit is not None:
             h.flow.messages[-1].content = unhx(edit); rep = edit
-        w.next_in = f"hook {w.owner(h.flow)} {rep}"
+        # the model is only told WHICH pending hook (by position) completes; whose hook that is, it predicts itself.
+        # `hook <owner-at-emission> <owner-now>`: the two differ iff the layer lost track of the stream in between
+        w.next_in = f"hook {w.emitted_owner.get(id(h), '?')} {rep} {idx} {w.owner(h.flow)}"
         w.resume(h)
 
     def act(self, act):
@@ -220,6 +225,7 @@ class Check(PropertyCheck):
 
     def setup(self, tier):
         self.parallel = tier == "thorough"
+        self.known_selftest()
         global _OPTS
         if _OPTS is None: _OPTS = make_context("udp").options
 
@@ -281,32 +287,61 @@ class Check(PropertyCheck):
     def oracle(self, case, obs):
         fails = []
         if obs["errors"]: fails.append(f"layer raised {obs['errors'][0]}")
-        peer_ids = {1: set(), 0: set()}     # stream ids each peer has used in events so far
+        prev_pairs = []          # table after the previous step
+        ever = {}                # client id -> server id it was paired with the first time a pair was observed
+        seen_c = set()           # client ids that have been registered at some point
         for st in obs["steps"]:
             parts = st["in"].split()
-            if parts[0] in ("sd", "sr") and "X" not in st["out"]:
-                peer_ids[int(parts[1])].add(int(parts[2]))
             pairs = st["pairs"]
             cids = [p[0] for p in pairs]; sids = [p[1] for p in pairs if p[1] is not None]
             # "every client stream is relayed to exactly one server stream ... and vice versa"
             if len(set(cids)) != len(cids) or len(set(sids)) != len(sids):
                 fails.append(f"pairing is not one-to-one: {pairs}")
             if sorted([s, c] for c, s in pairs if s is not None) != st["srv"]:
-                fails.append(f"client and server maps disagree: {pairs} vs {st['srv']}")
+                fails.append(f"client and server maps disagree: {pairs} vs {st['srv']}")     # consistency of the two tables
             for c, s in pairs:
                 if s is None: continue
                 # "of the same directionality"; allocated ids "carry the correct initiator and direction bits"
                 if uni(c) != uni(s): fails.append(f"pair ({c},{s}) differs in directionality")
                 if client_init(c) != client_init(s): fails.append(f"pair ({c},{s}) differs in initiator bit")
+            # "relayed to exactly ONE server stream": over the whole history a stream keeps its partner, and a registered
+            # stream stays registered (expected values come from the oracle's own record of what it saw first)
+            now = dict(pairs)
+            for c in seen_c:
+                if c not in now: fails.append(f"{st['in']}: stream with client id {c} is no longer registered")
+            for c, s0 in ever.items():
+                if c in now and now[c] != s0:
+                    fails.append(f"{st['in']}: client stream {c} was paired with server stream {s0}, now with {now[c]}")
+            for c, s in pairs:
+                seen_c.add(c)
+                if s is not None: ever.setdefault(c, s)
+            # the id a peer used itself is the id the layer must register (input-derived)
+            if parts[0] in ("sd", "sr") and "X" not in st["out"]:
+                fc, sid = int(parts[1]), int(parts[2])
+                if fc and sid not in now: fails.append(f"{st['in']}: no layer registered under client id {sid}")
+                if not fc and sid not in now.values(): fails.append(f"{st['in']}: no layer registered under server id {sid}")
+            # AssertionError ("X") is excused for exactly two reasons, both decidable from the input and the table BEFORE the step
+            if "X" in st["out"]:
+                pm_prev = dict(prev_pairs)
+                ok = False
+                if parts[0] in ("sd", "sr"):
+                    fc, sid = int(parts[1]), int(parts[2])
+                    unknown = (sid not in pm_prev) if fc else (sid not in pm_prev.values())
+                    ok = unknown and (client_init(sid) != bool(fc))          # registration guard: wrong initiator for that peer
+                elif parts[0] == "cc" and parts[1] == "0":
+                    ok = any(s is None for _, s in prev_pairs)                # close_stream_layer on a server side never opened
+                if not ok: fails.append(f"{st['in']}: AssertionError that neither assertion of the property's domain explains")
             # "data, end-of-stream and reset signals reach only the paired stream"
-            pm = {c: s for c, s in pairs}
-            if any(o.startswith("H:?") for o in st["out"]) or (parts[0] == "hook" and parts[1] == "?"):
-                # a hook of a stream layer that client_stream_ids no longer knows: its id was handed out twice
+            pm = now
+            if parts[0] == "hook" and (parts[1] == "?" or parts[1] != parts[4]):
+                fails.append(f"{st['in']}: the hook's stream layer is not registered under its client id any more (ids confused)")
+                prev_pairs = pairs; continue
+            if any(o.startswith("H:?") for o in st["out"]):
                 fails.append(f"{st['in']}: hook of a stream layer that is not registered under its client id (ids not unique)")
-                continue
+                prev_pairs = pairs; continue
             if parts[0] in ("sd", "sr", "hook") and parts[1 if parts[0] == "hook" else 2] != "dg":
                 if parts[0] == "hook":
-                    src_c = int(parts[1])
+                    src_c = int(parts[1])                                    # owner recorded when the hook was emitted
                 else:
                     fc, sid = int(parts[1]), int(parts[2])
                     src_c = sid if fc else next((c for c, s in pairs if s == sid), None)
@@ -321,21 +356,61 @@ class Check(PropertyCheck):
                 if f[0] in ("D", "R", "T"):
                     ok = (f[1] == "c" and int(f[2]) in pm) or (f[1] == "s" and int(f[2]) in pm.values())
                     if not ok: fails.append(f"{o} targets an unregistered stream")
+            prev_pairs = pairs
         return fails
+
+    def known_selftest(self):
+        """doctored observations just outside what the oracle excuses; independent of the tree under test"""
+        def step(inp, out, pairs, nxt=(0, 1, 2, 3)):
+            return {"in": inp, "out": out, "pairs": [list(p) for p in pairs],
+                    "srv": sorted([s, c] for c, s in pairs if s is not None), "next": list(nxt)}
+        base = [step("start", ["H:dg:start"], []), step("sd 1 0 61 0", ["H:0:start"], [(0, None)]),
+                step("hook 0 none 1 0", ["H:0:msg:c:61"], [(0, 0)], (4, 1, 2, 3))]
+        must_fail = {
+            "X on a known stream": base + [step("sd 1 0 62 0", ["X"], [(0, 0)])],
+            "X on unknown id of the RIGHT initiator": base + [step("sd 1 4 62 0", ["X"], [(0, 0)])],
+            "X on client close": base + [step("cc 1 0", ["Q:s:0", "X"], [(0, 0)])],
+            "X on server close with every server side open": base + [step("cc 0 0", ["Q:c:0", "X"], [(0, 0)])],
+            "stream forgotten": base + [step("sd 0 0 - 1", [], [])],
+            "stream re-paired": base + [step("sd 0 0 62 0", [], [(0, 4)])],
+            "peer id not registered": base + [step("sd 1 4 62 0", ["H:8:start"], [(0, 0), (8, None)])],
+            "command on a foreign stream": base + [step("sd 1 4 62 0", ["H:4:start"], [(0, 0), (4, None)]),
+                                                    step("hook 4 none 1 4", ["D:s:0:62:0"], [(0, 0), (4, 4)])],
+            "hook owner changed": base + [step("hook 0 none 0 4", [], [(0, 0)])],
+        }
+        must_pass = {
+            "guard assertion": base + [step("sd 1 5 62 0", ["X"], [(0, 0)])],
+            "unopened server side on server close": base[:2] + [step("cc 0 0", ["Q:c:0", "X"], [(0, None)])],
+        }
+        for label, steps in must_fail.items():
+            if not self.oracle({"sched": []}, {"steps": steps, "errors": [], "asserts": 0}):
+                raise AssertionError(f"known_selftest: oracle accepts doctored observation '{label}'")
+        for label, steps in must_pass.items():
+            f = self.oracle({"sched": []}, {"steps": steps, "errors": [], "asserts": 0})
+            if f: raise AssertionError(f"known_selftest: oracle rejects legitimate observation '{label}': {f[:2]}")
 
     # ---- model tie ---------------------------------------------------------------------------------
     def model_lines(self, case):
         last = getattr(self, "_last", None)
         obs = last[1] if last and last[0] is case else run_schedule(case)
-        return ["reset"] + [st["in"] for st in obs["steps"]]
+        lines = ["reset"]
+        for st in obs["steps"]:
+            f = st["in"].split()
+            lines.append(f"hookidx {f[3]} {f[2]}" if f[0] == "hook" else st["in"])
+        return lines
 
     def model_obs(self, case, replies):
         return replies[1:]
 
     def impl_view(self, case, obs):
-        return ["%s pairs=%s next=%s" % (",".join(st["out"]) or "-",
-                                          ";".join(f"{c}/{'n' if s is None else s}" for c, s in st["pairs"]) or "-",
-                                          ",".join(map(str, st["next"]))) for st in obs["steps"]]
+        out = []
+        for st in obs["steps"]:
+            f = st["in"].split()
+            out.append(("own=%s " % f[1] if f[0] == "hook" else "") +
+                       "%s pairs=%s next=%s" % (",".join(st["out"]) or "-",
+                                                ";".join(f"{c}/{'n' if s is None else s}" for c, s in st["pairs"]) or "-",
+                                                ",".join(map(str, st["next"]))))
+        return out
 
     def classify(self, case, obs):
         if not any(o[0] in "DRT" for st in obs["steps"] for o in st["out"]): return None
